@@ -482,6 +482,7 @@ impl PosWalk {
         for (i, &m) in r.moves.iter().enumerate() {
             let sample = || json!({"start": start_fen, "moves": moves_text(&r.moves[..i]), "position": p.fen4()});
             self.at_position(&p, &mut g, ev, route, &sample)?;
+            self.rare_successors(&p, &mut g, ev, route)?;
             let text = m.uci();
             let Some(em) = eng::find_legal(&mut g, &text) else {
                 return Err(Fail::new("legal-move-not-offered", format!("position {} : {} is legal but not in the engine's checked list", p.fen4(), text)));
@@ -589,6 +590,37 @@ impl PosWalk {
                 "hash-depends-on-route",
                 format!("{} reached by [{}] hashes {:X}, by [{}] hashes {:X}", p.fen4(), moves_text(&r.moves), g_a.hash(), texts.join(" "), g.hash()),
             ));
+        }
+        Ok(())
+    }
+
+    /// Successors that combine two rare features, judged at every position of a walk (the walk itself takes only one
+    /// move per position): any capture of a rook that stands on its home square with its castling right intact
+    /// (by a king, a promoting pawn, anything), and - while an en-passant file is set - every special move, king move
+    /// and capture (the file must be gone afterwards whatever the move was).
+    fn rare_successors(&self, p: &Pos, g: &mut Game, ev: &mut Ev, route: u64) -> Result<(), Fail> {
+        const HOMES: [(u8, usize); 4] = [(0, 1), (7, 0), (56, 3), (63, 2)];
+        let lower = |s: u8| p.b[s as usize].to_ascii_lowercase();
+        if p.ep.is_none() && !HOMES.iter().any(|&(sq, ci)| p.cr[ci] && lower(sq) == b'r') {
+            return Ok(());
+        }
+        for m in p.legal() {
+            let home_rook = HOMES.iter().any(|&(sq, ci)| m.to == sq && p.cr[ci] && lower(sq) == b'r' && p.is_capture(m));
+            let special = m.kind == K_EP || m.kind == K_OO || m.kind == K_OOO || m.promo != 0;
+            let with_ep = p.ep.is_some() && (special || lower(m.from) == b'k' || p.is_capture(m));
+            if !(home_rook || with_ep) {
+                continue;
+            }
+            ev.class(if home_rook { "successors_after_the_capture_of_a_home_rook_whose_right_is_intact" } else { "successors_of_special_moves_kings_and_captures_while_an_ep_file_is_set" });
+            let text = m.uci();
+            let Some(em) = eng::find_legal(g, &text) else {
+                return Err(Fail::new("legal-move-not-offered", format!("position {} : {}", p.fen4(), text)));
+            };
+            let q = p.make(m);
+            g.push(em);
+            let res = self.at_position(&q, g, ev, mix(route ^ fp_bytes(text.as_bytes())), &|| json!({"position": q.fen4(), "reached_by": text, "from": p.fen4()}));
+            g.pop(em);
+            res?;
         }
         Ok(())
     }
